@@ -5,3 +5,8 @@ import PhyloModel.Props.C03
 #print axioms C03.group_preserves
 #print axioms C03.reset_depths_spec
 #print axioms C03.fuel_irrelevant
+#print axioms C03.every_operation_preserves
+#print axioms C03.every_history
+#print axioms C03.depth_counts_edges
+#print axioms C03.one_rooted_tree
+#print axioms C03.no_new_root
